@@ -78,7 +78,9 @@ def select(tier, seed):
     pc = pool_chunks()
     rng = random.Random(seed * 7919 + 14)
     out = list(pc["core"])
-    if tier == "quick":
+    if os.environ.get("C14_ALL"):
+        want = {k: len(pc[k]) for k in "ABC"}        # developer switch: the whole allow-list (key-closure soak)
+    elif tier == "quick":
         want = {"A": 1, "B": 1, "C": 1}
     else:
         want = {"A": len(pc["A"]), "B": (3 * len(pc["B"]) + 3) // 4, "C": (3 * len(pc["C"]) + 3) // 4}
@@ -245,8 +247,14 @@ def run(ctx):
                 stats[spec["t"]] += 1
             except (ValueError, IndexError, KeyError) as e:
                 ctx.violation("%s:malformed_record" % spec["t"], "unparsable record for %s: %s" % (describe(spec), e), det)
-        if len(ctx.samples) < 6 and members:
-            ctx.sample(dict(expression=describe(members[0][1]), cases=ncases))
+        if len(ctx.samples) < 8 and members:
+            opname, spec0, _ = members[0]
+            first = [m for m in meta.values() if m["op"] == opname]
+            if first:
+                c0 = first[0]["case"]
+                ctx.sample(dict(expression=describe(spec0), leaf_shapes=c0["leaf_shapes"], attributes={str(k): v for k, v in c0["attr_vals"].items()},
+                                model_output_shape=c0["out_shapes"], cases=ncases,
+                                call_forms=[e for _, _, e in (G.curry_variants(spec0) if spec0["t"] == "A" else G.compose_variants(spec0) if spec0["t"] == "B" else [])][:6]))
     for members, err in compile_failed:
         ctx.inconc("generated TU with %s no longer compiles: %s" % ([describe(s) for _, s, _ in members][:4], err[-400:].replace("\n", " | ")))
     nspec = {k: sum(1 for s, _ in chosen if s["t"] == k) for k in "ABC"}
